@@ -124,6 +124,10 @@ func (ci *crdIpam) handleFIPUnassign(obj interface{}) error {
 	if !ok {
 		return fmt.Errorf("%s already been released", ipStr)
 	}
+	if _, ok := allocated.Labels[constant.ReserveFIPLabel]; !ok {
+		// a stale delete event of a reservation, the ip has been allocated to a pod since then
+		return fmt.Errorf("%s is allocated to %s, not reserved", ipStr, allocated.Key)
+	}
 	ci.syncCacheAfterDel(allocated)
 	glog.Infof("released reserved ip %s", ipStr)
 	return nil
